@@ -20,6 +20,8 @@ func runC19Gaps2(c *eng.Ctx) {
 	c19gInitialLimit(c)
 	c19gLegacyLimit(c)
 	c19gControlGroupRMW(c)
+	c19gLockedStoresAreLockedReads(c)
+	c19gParentIsLive(c)
 }
 
 // returnsUnder: the returns of f reachable after `after` when the conditions of
@@ -419,5 +421,170 @@ func c19gControlGroupRMW(c *eng.Ctx) {
 				}
 			}
 		}
+	}
+}
+
+// C19.1e: a token entry that is written back under the per-token lock was read
+// under that lock: for every TokenStore.store (or the control-group writer) in
+// package vault that executes with a LockForKey(tokenLocks, …) lock held, the
+// lookupInternal call its entry comes from is executed with the lock held as
+// well. (The lock key can only be derived from the entry, so orphaning and tidy
+// look the child up first; they must look it up again once the lock is held,
+// otherwise the copy written back predates a concurrent UseToken.) Stores that
+// are not made under a token lock at all — the revocation marker, lookup's own
+// upgrade persist under the caller's read lock — are outside this clause.
+func c19gLockedStoresAreLockedReads(c *eng.Ctx) {
+	c.Clause("R9", "C19.1")
+	acquire := eng.LockCall(`LockForKey.*tokenLocks`, "Lock")
+	release := eng.LockCall(`LockForKey.*tokenLocks`, "Unlock")
+	n := 0
+	for _, fn := range c.P.Funcs {
+		if !eng.InPkg(fn, "vault") || len(fn.Blocks) == 0 {
+			continue
+		}
+		stores := eng.Calls(fn, `vault\.\(\*TokenStore\)\.store$|vault\.\(\*Core\)\.setControlGroupInTokenEntry$`)
+		if len(stores) == 0 {
+			continue
+		}
+		held := eng.MustHold(fn, acquire, release)
+		for _, s := range stores {
+			if !held(s) {
+				continue
+			}
+			a := s.Common().Args
+			if len(a) < 3 {
+				continue
+			}
+			for _, o := range eng.Origins(a[2]) {
+				ex, ok := o.Val.(*ssa.Extract)
+				if !ok || ex.Index != 0 {
+					continue
+				}
+				lk, ok := ex.Tuple.(*ssa.Call)
+				if !ok || !strings.HasSuffix(eng.CalleeName(&lk.Call), "vault.(*TokenStore).lookupInternal") {
+					continue
+				}
+				n++
+				site := "entry stored under the token lock was read under it"
+				if held(lk) {
+					c.OK(fn, site, s.Pos(), "lookupInternal and the store both execute with the per-token lock held")
+				} else {
+					c.Violation(fn, site, s.Pos(), "the entry written back under the per-token lock comes from a lookupInternal made before the lock was taken: a concurrent UseToken decrement (or revocation marker) stored in between is overwritten", nil)
+				}
+			}
+		}
+	}
+	c.Floor(nil, "token entries re-stored under the per-token lock", n, 4)
+}
+
+// C19.4b: the parent that the "no child from a use-limited parent" guard looks
+// at is the LIVE entry: the value whose NumUses is tested with "> 0" in
+// handleCreateCommon comes from the untainted TokenStore.Lookup, which hides an
+// entry marked revocation-pending (NumUses == -1) — by the time the backend
+// runs, handleRequest has already consumed a use, so a parent on its final use
+// must not be found. A tainted lookup returns that entry, -1 > 0 is false and an
+// orphan child escapes the limit (seed C19-c). Equivalently the guard may refuse
+// on NumUses != 0. storeCommon's parent check rests on the same Lookup, and the
+// tainted lookups have a reviewed caller table (revocation, tidy, wrapping
+// validation and display paths only).
+func c19gParentIsLive(c *eng.Ctx) {
+	const live = `^call:vault\.\(\*TokenStore\)\.Lookup#0$`
+	if f := c.Fn("vault.(*TokenStore).handleCreateCommon"); f != nil {
+		c.Clause("R5", "C19.4")
+		create := eng.AsInstrs(eng.Calls(f, `vault\.\(\*TokenStore\)\.create$`))
+		guards := eng.EdgeIfs(eng.CondEdges(f, `^0 < .*\.NumUses$`, false))
+		if c.Floor(f, "use-limit guard on the parent", len(guards), 1) && c.Floor(f, "ts.create", len(create), 1) {
+			for _, g := range guards {
+				var base ssa.Value
+				var find func(v ssa.Value, d int)
+				find = func(v ssa.Value, d int) {
+					if v == nil || d > 6 || base != nil {
+						return
+					}
+					if fa, ok := v.(*ssa.FieldAddr); ok {
+						if fv := eng.FieldVar(fa); fv != nil && fv.Name() == "NumUses" {
+							base = fa.X
+							return
+						}
+					}
+					if in, ok := v.(ssa.Instruction); ok {
+						for _, op := range in.Operands(nil) {
+							if *op != nil {
+								find(*op, d+1)
+							}
+						}
+					}
+				}
+				find(g.(*ssa.If).Cond, 0)
+				site := "parent tested by the use-limit guard is the live entry"
+				if base == nil {
+					c.Undecided(f, site, g.Pos(), "the entry whose NumUses is tested was not found")
+					continue
+				}
+				if ok, _, all := eng.OriginsMatch(base, live); ok {
+					c.OK(f, site, g.Pos(), strings.Join(all, ", "))
+					continue
+				} else {
+					// a guard that refuses on NumUses != 0 does not depend on the tombstone being hidden
+					nz := eng.CondEdges(f, `^`+regexp.QuoteMeta(eng.Expr(base))+`\.NumUses == 0$`, true)
+					if len(nz) > 0 && eng.Reach(eng.Query{Fn: f, Blocked: nz, Target: eng.IsTarget(create)}) == nil {
+						c.OK(f, site, g.Pos(), "creation is also behind "+eng.Expr(base)+".NumUses == 0")
+						continue
+					}
+					c.Violation(f, site, g.Pos(), "the guard NumUses > 0 tests an entry from "+strings.Join(all, ", ")+": a lookup that returns revocation-pending entries hands it NumUses == -1 on the parent's final use, -1 > 0 is false and an (orphan) child is minted by an exhausted token", nil)
+				}
+			}
+		}
+	}
+	if f := c.Fn("vault.(*TokenStore).storeCommon"); f != nil {
+		c.Clause("R2", "C19.4")
+		var puts []ssa.Instruction
+		for _, p := range eng.Calls(f, `\.Put$`) {
+			cc := p.Common()
+			recv := cc.Value
+			if !cc.IsInvoke() && len(cc.Args) > 0 {
+				recv = cc.Args[0]
+			}
+			if recv != nil && strings.Contains(eng.ExprDeep(recv), "parentView") {
+				puts = append(puts, p)
+			}
+		}
+		if c.Floor(f, "parent-index write", len(puts), 1) {
+			c.Cut(f, "parent-index write (child attached to its parent)", puts, eng.G(f, `^vault\.\(\*TokenStore\)\.Lookup\(\)#0 == nil$`, false), nil)
+		}
+	}
+	// who may see revocation-pending entries
+	c.Clause("R1", "C19.4")
+	if m, miss := c.P.StaticCallee("vault.(*TokenStore).lookupTainted"); len(miss) == 0 {
+		c.CallerTable("TokenStore.lookupTainted", c.P.FindCalls(m, nil), map[string]string{
+			"vault.(*Core).handleCancelableRequest":       "deferred control-group request stored in a wrapping token that validateWrappingToken accepted",
+			"vault.(*SystemBackend).handleWrappingLookup": "sys/wrapping/lookup: the wrapping token was just used for this very request",
+			"vault.(*SystemBackend).handleWrappingRewrap": "sys/wrapping/rewrap: same",
+			"vault.(*SystemBackend).handleWrappingUnwrap": "sys/wrapping/unwrap: same",
+		}, 4)
+	} else {
+		c.Unresolved("vault.(*TokenStore).lookupTainted")
+	}
+	if m, miss := c.P.StaticCallee("vault.(*TokenStore).lookupInternal"); len(miss) == 0 {
+		var tainted []eng.CallSite
+		for _, s := range c.P.FindCalls(m, nil) {
+			a := s.Call.Common().Args
+			if len(a) >= 5 && eng.Expr(a[4]) != "false" {
+				tainted = append(tainted, s)
+			}
+		}
+		c.CallerTable("TokenStore.lookupInternal(tainted != false)", tainted, map[string]string{
+			"vault.(*TokenStore).lookupTainted":       "the named tainted entry point (own table above)",
+			"vault.(*TokenStore).lookupByAccessor":    "passes its caller's flag on (accessor lookups for revocation/display)",
+			"vault.(*TokenStore).create":              "collision test for a client-chosen token id",
+			"vault.(*TokenStore).revokeInternal":      "revocation",
+			"vault.(*TokenStore).revokeTreeInternal":  "revocation",
+			"vault.(*TokenStore).handleTidy":          "tidy",
+			"vault.(*TokenStore).handleLookup":        "auth/token/lookup display",
+			"vault.(*Core).handleControlGroupRequest": "control-group status display",
+			"vault.(*ExpirationManager).Tidy":         "lease tidy",
+		}, 8)
+	} else {
+		c.Unresolved("vault.(*TokenStore).lookupInternal")
 	}
 }
